@@ -240,6 +240,9 @@ def deb_case(ctx, idx, rng):
                 f.write(pogen.render(content_catalog(rng, po_only_features=False)))
             p = subprocess.run(['msgfmt', '-o', os.path.join(tree, name), tmp], stdout=subprocess.PIPE, stderr=subprocess.PIPE)
             if p.returncode != 0:
+                # msgfmt may leave an output file behind even when it reports an error: the member is dropped from the package
+                if os.path.exists(os.path.join(tree, name)):
+                    os.remove(os.path.join(tree, name))
                 continue
         else:
             with open(os.path.join(tree, name), 'w', encoding='utf-8') as f:
